@@ -51,6 +51,10 @@ pub fn load_incircuit(
                 .flat_map(|value| value.transpose_vec(n))
                 .collect();
             let assigned = std_lib.assign_many(layouter, &concatenated)?;
+            if n == 0 {
+                // Byte arrays of length zero carry no cells.
+                return Ok(values.iter().map(|_| CircuitValue::Bytes(vec![])).collect());
+            }
             Ok(assigned.chunks(n).map(|chunk| CircuitValue::Bytes(chunk.to_vec())).collect())
         }
 
